@@ -127,6 +127,42 @@ def _snapshot_rule(chk, cols):
     if n < 3:
         raise AnalysisError('C35.snapshot: writers of previous_value not found (%d)' % n)
 
+    # after a save / update the snapshot is refreshed for every value the statements wrote: the predicates of the value manager that make
+    # DMLQuery emit something (changed -> SET / INSERT, deleted -> DELETE column) must all select the value in _set_persisted
+    chk.rule('C35.baseline', 'Model._set_persisted refreshes previous_value for every value manager that DMLQuery wrote: its filter covers each emitting predicate (changed, deleted)')
+    qm = chk.repo.mod('cassandra/cqlengine/query.py')
+    cm = chk.repo.mod('cassandra/cqlengine/columns.py')
+    props = set()
+    for cls_ in cm.tree.body:
+        if isinstance(cls_, ast.ClassDef) and cls_.name == 'BaseValueManager':
+            for fn in cls_.body:
+                if isinstance(fn, ast.FunctionDef) and any(src(d) == 'property' for d in fn.decorator_list):
+                    props.add(fn.name)
+    emitting = set()
+    for q_ in ('DMLQuery._delete_null_columns', 'DMLQuery.update', 'DMLQuery.save'):
+        for x in body_walk(qm.func(q_)):
+            if isinstance(x, ast.Attribute) and x.attr in props and x.attr in ('changed', 'deleted') and isinstance(x.ctx, ast.Load):
+                emitting.add(x.attr)
+    if emitting != set(['changed', 'deleted']):
+        raise AnalysisError('C35.baseline: emitting predicates of DMLQuery not recognised: %s' % sorted(emitting))
+    sp = chk.repo.mod('cassandra/cqlengine/models.py').func('BaseModel._set_persisted')
+    resets = [c for c in body_walk(sp) if isinstance(c, ast.Call) and isinstance(c.func, ast.Attribute) and c.func.attr == 'reset_previous_value']
+    if len(resets) != 1:
+        raise AnalysisError('_set_persisted: reset_previous_value call not found')
+    filt = [x for x in body_walk(sp) if isinstance(x, ast.comprehension) and x.ifs] + [x for x in body_walk(sp) if isinstance(x, ast.If)]
+    covered = set()
+    unfiltered = not filt
+    for fx in filt:
+        for t in (fx.ifs if isinstance(fx, ast.comprehension) else [fx.test]):
+            terms = t.values if isinstance(t, ast.BoolOp) and isinstance(t.op, ast.Or) else [t]
+            for term in terms:
+                if isinstance(term, ast.Attribute) and term.attr in props:
+                    covered.add(term.attr)
+    missing = sorted(emitting - covered) if not unfiltered else []
+    chk.judge(not missing, 'C35.baseline', sp, '_set_persisted selects values that are %s (or all when forced)' % ' or '.join(sorted(covered) or ['<every value>']),
+              'a value that DMLQuery wrote because it was %s keeps its old previous_value: p.tags.clear(); p.save() emits DELETE "tags" but the snapshot stays {1, 2}, so the next '
+              'p.tags.add(1); p.save() emits "tags" = "tags" - {2} and never adds 1 - the row keeps null while the instance holds {1}' % '/'.join(missing))
+
 
 def _under_copy(node, root):
     p = parent(node)
